@@ -8,6 +8,7 @@
   `pm` is PATH_MAX; all theorems hold for every value of it.
 -/
 import W2c2Verif.Lemmas.WasiPath
+import W2c2Verif.Lemmas.WasiPathProc
 
 namespace W2c2Verif.C14
 open W2c2Verif W2c2Verif.WasiPath
@@ -343,6 +344,38 @@ theorem path_symlink_acts_on_resolved (pm : Nat) (host : HostOp → HostRes) (fd
       simp only [Out.bind_val, c2, k2]
       rw [cstr_strcpy _ _ (cstr_nul_free _), hc]
       cases host (HostOp.symlink (cstr (ta.take tl)) p) <;> rfl
+
+/-- **readlink_writes_only_buffer.**  path_readlink writes the first `min(|target|, bufferLength)` bytes of
+    the link target at the buffer and the 4-byte length at `lengthPointer` — and NOTHING else: every other
+    byte of guest memory is unchanged, in particular the byte just past the buffer when the target fills it
+    exactly or is truncated (no terminator is stored in guest memory).  The regenerated list of stores of
+    wasiPathReadlink is exactly `[i32_store(memory, lengthPointer, length)]`. -/
+theorem readlink_writes_only_buffer (target : Bytes) (mem : Mem) (bufPtr bufLen lenPtr : Nat)
+    (hb : bufPtr + min target.length bufLen ≤ mem.length) (hl : lenPtr + 4 ≤ mem.length) :
+    Gen.WasiPath.readlinkStores = ["i32_store(memory, lengthPointer, length);"] ∧
+    (∃ mem', pathReadlinkMem (.inr target) mem bufPtr bufLen lenPtr = .val (0, mem') ∧ mem'.length = mem.length ∧
+      ∀ k, ¬ (bufPtr ≤ k ∧ k < bufPtr + min target.length bufLen) → ¬ (lenPtr ≤ k ∧ k < lenPtr + 4) →
+        mem'[k]? = mem[k]?) := by
+  refine ⟨rfl, ?_⟩
+  have htl : (target.take (min target.length bufLen)).length = min target.length bufLen := by
+    simp only [List.length_take]; omega
+  have h1 : bufPtr + (target.take (min target.length bufLen)).length ≤ mem.length := by rw [htl]; exact hb
+  have hl1 := WasiProc.put_length mem bufPtr _ h1
+  have h4 : (leBytes 4 (min target.length bufLen)).length = 4 := leBytes_length _ _
+  have h2 : lenPtr + (leBytes 4 (min target.length bufLen)).length ≤
+      (WasiProc.put mem bufPtr (target.take (min target.length bufLen))).length := by rw [h4, hl1]; exact hl
+  refine ⟨WasiProc.put (WasiProc.put mem bufPtr (target.take (min target.length bufLen))) lenPtr
+      (leBytes 4 (min target.length bufLen)), ?_, ?_, ?_⟩
+  · unfold pathReadlinkMem
+    simp only [Gen.WasiPath.readlinkTerminatesInGuest, i32Store]
+    rw [WasiProc.storeBytes_put mem bufPtr _ h1]
+    simp only [Out.bind_val, Bool.false_eq_true, if_false]
+    rw [WasiProc.storeBytes_put _ lenPtr _ h2]
+    rfl
+  · rw [WasiProc.put_length _ _ _ h2, hl1]
+  · intro k hk1 hk2
+    rw [WasiProc.put_getElem? _ _ _ h2, WasiProc.put_getElem? _ _ _ h1, h4, htl]
+    simp only [hk1, hk2, if_false]
 
 /-- **path_embedded_nul_rejected** (regression of the former finding `path-embedded-nul-truncated`):
     `path_create_directory("a\0b")` performs NO host operation and returns EINVAL. -/
